@@ -15,7 +15,7 @@ import (
 func init() { register("C19", true, checkC19) }
 
 func checkC19(p *Prog, r *Report) {
-	r.Explain("SIZEG: in each NewPHash* the pool Get is dominated by branch conditions implying img != nil, Dx == N and Dy == N with N*N the pool's slice length. BITS: the bit-assembly loop sets bit (W-1)-(idx mod W) of word idx div W (MSB first, row-major) and the DCT flatteners copy row j, column i of the top-left KxK block to K*j+i. ORIGIN: every gray converter addresses the image in image coordinates (loop index + Bounds().Min) while the destination stays 0-based. DISPATCH: each fast path of the converter dispatchers is handed the type-asserted image itself, never a part of it (an embedded YCbCr of an NYCbCrA). HAMMING: Distance is OnesCount64 of the XOR of corresponding words, each word once. The numerical clauses (median threshold, agreement of the two implementations within rounding) are run-time arithmetic and are not decided. ROWPASS: each portable DCT2DHash64/256 runs its 1-D kernel on input[i*N : i*N+N] for i = 0..N-1 in a unit-step loop with a constant bound, on every iteration, before every return (a delegation of the whole buffer to the assembly kernel excepted) — no row reaches the column pass untransformed. LUMA: the per-pixel luminance helpers of the two families (transforms.pixel2Gray, transforms32.pixelToGray) are each one straight-line expression of r, g, b that never consults alpha, and the two expressions are identical up to the final float32 conversion.")
+	r.Explain("SIZEG: in each NewPHash* the pool Get is dominated by branch conditions implying img != nil, Dx == N and Dy == N with N*N the pool's slice length. BITS: the bit-assembly loop sets bit (W-1)-(idx mod W) of word idx div W (MSB first, row-major) and the DCT flatteners copy row j, column i of the top-left KxK block to K*j+i. ORIGIN: every gray converter addresses the image in image coordinates (loop index + Bounds().Min) while the destination stays 0-based. DISPATCH: each fast path of the converter dispatchers is handed the type-asserted image itself, never a part of it (an embedded YCbCr of an NYCbCrA). HAMMING: Distance is OnesCount64 of the XOR of corresponding words, each word once. The numerical clauses (median threshold, agreement of the two implementations within rounding) are run-time arithmetic and are not decided. ROWPASS: each portable DCT2DHash64/256 runs its 1-D kernel on input[i*N : i*N+N] for i = 0..N-1 in a unit-step loop with a constant bound, on every iteration, before every return (a delegation of the whole buffer to the assembly kernel excepted) — no row reaches the column pass untransformed. LUMA: the per-pixel luminance helpers of the two families (transforms.pixel2Gray, transforms32.pixelToGray) are each one straight-line expression of r, g, b that never consults alpha, and the two expressions are identical up to the final float32 conversion. COLPASS: each then gathers col[j] = input[N*j + i] for j = 0..N-1 and hands the whole buffer to the 1-D kernel once for every i = 0..K-1, after the gather. SIBLING: the median selection of the two families (quickSelectMedian, MedianOfPixels64, MedianOfPixels256 in transforms and transforms32) has one canonical SSA form up to the float width — both families mean the same threshold.")
 	r.Trusted("image.Image implementations honour Bounds()", "math/bits.OnesCount64")
 	ruleSizeG(p, r)
 	ruleHamming(p, r)
@@ -809,10 +809,14 @@ func ruleBits(p *Prog, r *Report) {
 		}
 		checkFlattener(p, r, "BITS", f, key, sp.K, sp.N)
 		checkRowPass(p, r, "ROWPASS", f, sp.rel+"."+sp.name+" | row pass", sp.N)
+		checkColPass(p, r, "COLPASS", f, sp.rel+"."+sp.name+" | column pass", sp.K, sp.N)
 	}
 	r.Floor("ROWPASS", 4)
+	r.Floor("COLPASS", 4)
 	ruleLuma(p, r)
 	r.Floor("LUMA", 1)
+	ruleSibling(p, r)
+	r.Floor("SIBLING", 3)
 }
 
 func isFloat(t types.Type) bool {
@@ -1872,5 +1876,285 @@ func ruleLuma(p *Prog, r *Report) {
 		r.Bad("LUMA", key, at, "the two helpers compute different expressions: "+fa+" vs "+fb)
 	default:
 		r.OK("LUMA", key, at, "both are the straight-line expression "+fa)
+	}
+}
+
+// checkColPass: after the row pass the first K columns are transformed: for i = 0..K-1 a buffer of N values is
+// gathered as col[j] = input[N*j + i] for j = 0..N-1 (unit steps, constant bounds) and handed whole to the 1-D
+// kernel once per column, on every iteration of the column loop. A gather with another stride, a shorter range or a
+// kernel call outside the loop feeds the flattener coefficients of the wrong column.
+func checkColPass(p *Prog, r *Report, rule string, f *ssa.Function, key string, K, N int64) {
+	at := p.posStr(f.Pos())
+	loops := findLoops(f)
+	loopOf := func(phi *ssa.Phi) *Loop {
+		for _, l := range loops {
+			if l.Head == phi.Block() {
+				return l
+			}
+		}
+		return nil
+	}
+	why := fmt.Sprintf("no gather col[j] = input[%d*j + i] into a local [%d] buffer was found", N, N)
+	found := ""
+	eachInstr(f, func(_ *ssa.BasicBlock, _ int, in ssa.Instruction) {
+		if found != "" {
+			return
+		}
+		st, ok := in.(*ssa.Store)
+		if !ok {
+			return
+		}
+		dst, ok := st.Addr.(*ssa.IndexAddr)
+		if !ok {
+			return
+		}
+		col, ok := dst.X.(*ssa.Alloc)
+		if !ok {
+			return
+		}
+		if arr, ok := derefType(col.Type()).Underlying().(*types.Array); !ok || arr.Len() != N {
+			return
+		}
+		srcIdx, ok := elementIndex(st.Val)
+		if !ok {
+			return
+		}
+		ja := affineOf(dst.Index, 0)
+		if len(ja.Terms) != 1 || ja.C != 0 {
+			return
+		}
+		var jphi *ssa.Phi
+		for k, c := range ja.Terms {
+			if ph, ok := k.(*ssa.Phi); ok && c == 1 {
+				jphi = ph
+			}
+		}
+		if jphi == nil {
+			return
+		}
+		jind, ok := inductionOf(jphi)
+		if !ok || jind.Step != 1 {
+			why = "the gather counter is not a unit-step loop variable"
+			return
+		}
+		if lo, hi, okr := jind.constRange(); !okr || lo != 0 || hi != N-1 {
+			why = fmt.Sprintf("the gather loop does not run over j = 0..%d", N-1)
+			return
+		}
+		sa := affineOf(srcIdx, 0)
+		rest := sa.addScaled(ja, -N)
+		if len(rest.Terms) != 1 || rest.C != 0 {
+			why = fmt.Sprintf("the gather reads input[%s], want input[%d*j + i]", sa, N)
+			return
+		}
+		var iphi *ssa.Phi
+		for k, c := range rest.Terms {
+			if ph, ok := k.(*ssa.Phi); ok && c == 1 && ph != jphi {
+				iphi = ph
+			}
+		}
+		if iphi == nil {
+			why = fmt.Sprintf("the gather reads input[%s], want input[%d*j + i]", sa, N)
+			return
+		}
+		iind, ok := inductionOf(iphi)
+		if !ok || iind.Step != 1 {
+			why = "the column counter is not a unit-step loop variable"
+			return
+		}
+		if lo, hi, okr := iind.constRange(); !okr || lo != 0 || hi != K-1 {
+			why = fmt.Sprintf("the column loop does not run over i = 0..%d", K-1)
+			return
+		}
+		il, jl := loopOf(iphi), loopOf(jphi)
+		if il == nil || jl == nil || !il.Blocks[jl.Head] {
+			why = "the gather loop is not nested in the column loop"
+			return
+		}
+		// every iteration of the gather loop stores; the kernel is called on the whole buffer once per column
+		for _, lt := range jl.Latch {
+			if !st.Block().Dominates(lt) {
+				why = "the gather is skipped on some iterations"
+				return
+			}
+		}
+		kernel := ""
+		eachCall(f, func(site ssa.CallInstruction) {
+			if kernel != "" {
+				return
+			}
+			b := site.Block()
+			if !il.Blocks[b] || jl.Blocks[b] {
+				return
+			}
+			for _, a := range site.Common().Args {
+				sl, ok := a.(*ssa.Slice)
+				if !ok || sl.X != ssa.Value(col) {
+					continue
+				}
+				if sl.Low != nil {
+					if k, ok := constInt(sl.Low); !ok || k != 0 {
+						continue
+					}
+				}
+				if sl.High != nil {
+					if k, ok := constInt(sl.High); !ok || k != N {
+						continue
+					}
+				}
+				every := true
+				for _, lt := range il.Latch {
+					if !b.Dominates(lt) {
+						every = false
+					}
+				}
+				if every && jl.Head.Dominates(b) {
+					kernel = calleeName(site.Common())
+				}
+			}
+		})
+		if kernel == "" {
+			why = "the gathered column is not handed whole to a kernel once per iteration of the column loop, after the gather"
+			return
+		}
+		found = fmt.Sprintf("col[j] = input[%d*j + i], j = 0..%d, then %s(col[:]) for i = 0..%d", N, N-1, kernel, K-1)
+	})
+	if found != "" {
+		r.OK(rule, key, at, found)
+	} else {
+		r.Bad(rule, key, at, why+": the flattener then reads coefficients that are not those of column i")
+	}
+}
+
+// ---- SIBLING: the threshold of the two hash families is computed by one algorithm ---------------------------------
+//
+// "The primary and the alternative implementation agree on every bit not within rounding distance of the threshold"
+// needs both to mean the same thing by threshold. transforms (float64) and transforms32 (float32) each carry their
+// own copy of the median selection (MedianOfPixels64, MedianOfPixels256, quickSelectMedian). Each pair is
+// serialised from SSA into a canonical form — blocks in order, instructions with operands numbered by definition,
+// constants by value, float32 and float64 unified, callees by bare name — and the forms must be identical: a
+// change to one copy (an early exit that is right for the k-th element but not for the mean of the two middle ones)
+// is a change of one family's threshold only. The price is that a deliberate rewrite has to be made in both copies.
+func canonSSA(f *ssa.Function) string {
+	ids := map[ssa.Value]string{}
+	for i, prm := range f.Params {
+		ids[prm] = fmt.Sprintf("p%d", i)
+	}
+	n := 0
+	for _, b := range f.Blocks {
+		for _, in := range b.Instrs {
+			if v, ok := in.(ssa.Value); ok {
+				ids[v] = fmt.Sprintf("v%d", n)
+				n++
+			}
+		}
+	}
+	typ := func(t types.Type) string {
+		s := t.String()
+		s = strings.ReplaceAll(s, "float32", "F")
+		s = strings.ReplaceAll(s, "float64", "F")
+		return s
+	}
+	name := func(v ssa.Value) string {
+		if v == nil {
+			return "_"
+		}
+		if id, ok := ids[v]; ok {
+			return id
+		}
+		switch x := v.(type) {
+		case *ssa.Const:
+			if x.Value == nil {
+				return "nil"
+			}
+			return x.Value.ExactString()
+		case *ssa.Function:
+			return "fn:" + x.Name()
+		case *ssa.Builtin:
+			return "builtin:" + x.Name()
+		case *ssa.Global:
+			return "g:" + x.Name()
+		}
+		return "?" + v.Name()
+	}
+	var sb strings.Builder
+	for _, b := range f.Blocks {
+		fmt.Fprintf(&sb, "B%d:", b.Index)
+		for _, s := range b.Succs {
+			fmt.Fprintf(&sb, " ->%d", s.Index)
+		}
+		sb.WriteString("\n")
+		for _, in := range b.Instrs {
+			if _, dbg := in.(*ssa.DebugRef); dbg {
+				continue
+			}
+			op := fmt.Sprintf("%T", in)
+			extra := ""
+			switch x := in.(type) {
+			case *ssa.BinOp:
+				extra = x.Op.String()
+			case *ssa.UnOp:
+				extra = x.Op.String()
+			case *ssa.FieldAddr:
+				extra = fmt.Sprint(x.Field)
+			case *ssa.Field:
+				extra = fmt.Sprint(x.Field)
+			case *ssa.Extract:
+				extra = fmt.Sprint(x.Index)
+			case *ssa.Alloc:
+				extra = typ(x.Type())
+			case *ssa.Convert:
+				extra = typ(x.Type())
+			case *ssa.MakeSlice:
+				extra = typ(x.Type())
+			}
+			var ops []string
+			var raw []*ssa.Value
+			for _, o := range in.Operands(raw) {
+				if o != nil {
+					ops = append(ops, name(*o))
+				}
+			}
+			lhs := ""
+			if v, ok := in.(ssa.Value); ok {
+				lhs = ids[v] + " = "
+			}
+			fmt.Fprintf(&sb, "  %s%s %s (%s)\n", lhs, op, extra, strings.Join(ops, ", "))
+		}
+	}
+	return sb.String()
+}
+
+func ruleSibling(p *Prog, r *Report) {
+	for _, nm := range []string{"quickSelectMedian", "MedianOfPixels64", "MedianOfPixels256"} {
+		a := p.Func("imagehash/transforms", "", nm)
+		b := p.Func("imagehash/transforms32", "", nm)
+		key := "imagehash/transforms." + nm + " == imagehash/transforms32." + nm
+		if a == nil || b == nil || len(a.Blocks) == 0 || len(b.Blocks) == 0 {
+			r.Undecided("SIBLING", key, "-", "unresolved anchor: one of the two copies is missing")
+			continue
+		}
+		ca, cb := canonSSA(a), canonSSA(b)
+		if ca == cb {
+			r.OK("SIBLING", key, p.posStr(a.Pos()), fmt.Sprintf("identical canonical form (%d blocks)", len(a.Blocks)))
+			continue
+		}
+		// first differing line, for the report
+		la, lb := strings.Split(ca, "\n"), strings.Split(cb, "\n")
+		diff := ""
+		for i := 0; i < len(la) || i < len(lb); i++ {
+			x, y := "", ""
+			if i < len(la) {
+				x = la[i]
+			}
+			if i < len(lb) {
+				y = lb[i]
+			}
+			if x != y {
+				diff = fmt.Sprintf("first difference at canonical line %d: float64 copy %q, float32 copy %q", i+1, strings.TrimSpace(x), strings.TrimSpace(y))
+				break
+			}
+		}
+		r.Bad("SIBLING", key, p.posStr(b.Pos()), "the float64 and the float32 copy are no longer the same algorithm ("+diff+"): the two hash families then take different thresholds for the same coefficients; a deliberate change has to be made in both copies")
 	}
 }
